@@ -49,13 +49,60 @@ func (in *inst) call(pos token.Pos) ast.Stmt {
 func (in *inst) list(stmts []ast.Stmt) []ast.Stmt {
 	var out []ast.Stmt
 	for _, s := range stmts {
-		if _, isLabeled := s.(*ast.LabeledStmt); !isLabeled {
+		// a statement that calls nothing and touches no channel has no effect outside the goroutine:
+		// dying in front of it is the same crash instant as dying in front of the next statement that has
+		// one, so only those get a point (plus the first statement of every block)
+		if _, isLabeled := s.(*ast.LabeledStmt); !isLabeled && (len(out) == 0 || effectful(s)) {
 			out = append(out, in.call(s.Pos()))
 		}
 		in.stmt(s)
 		out = append(out, s)
 	}
 	return out
+}
+
+// effectful: the statement's own header (not the bodies nested in it, they get their own points)
+// contains a call, a channel operation, a go/defer/return or a select.
+func effectful(s ast.Stmt) bool {
+	has := func(n ast.Node) bool {
+		found := false
+		if n == nil {
+			return false
+		}
+		ast.Inspect(n, func(x ast.Node) bool {
+			switch v := x.(type) {
+			case *ast.FuncLit:
+				return false
+			case *ast.CallExpr:
+				found = true
+			case *ast.UnaryExpr:
+				if v.Op == token.ARROW {
+					found = true
+				}
+			}
+			return !found
+		})
+		return found
+	}
+	switch x := s.(type) {
+	case *ast.GoStmt, *ast.DeferStmt, *ast.SendStmt, *ast.SelectStmt, *ast.ReturnStmt:
+		return true
+	case *ast.IfStmt:
+		return (x.Init != nil && has(x.Init)) || has(x.Cond)
+	case *ast.ForStmt:
+		return (x.Init != nil && has(x.Init)) || (x.Cond != nil && has(x.Cond)) || (x.Post != nil && has(x.Post))
+	case *ast.RangeStmt:
+		return has(x.X)
+	case *ast.SwitchStmt:
+		return (x.Init != nil && has(x.Init)) || (x.Tag != nil && has(x.Tag))
+	case *ast.TypeSwitchStmt:
+		return has(x.Assign)
+	case *ast.BlockStmt:
+		return false
+	case *ast.LabeledStmt:
+		return effectful(x.Stmt)
+	}
+	return has(s)
 }
 
 func (in *inst) block(b *ast.BlockStmt) {
